@@ -24,7 +24,7 @@ Lemma notes_loop be c : forall n o size acc,
 Proof.
   unfold NHDR.
   induction n as [|n IH]; intros o size acc Hfuel Hinv Hacc; [lia|].
-  cbn [loop_nat]. unfold notes_body at 1. unfold NHDR.
+  cbn [loop_nat]. unfold notes_body at 1, notes_body_w, wrap32. unfold NHDR.
   destruct (size <? 12) eqn:Hsz.
   { eexists. split; [reflexivity|]. rewrite <- rev_alt. now apply Forall_rev. }
   apply N.ltb_ge in Hsz. destruct Hinv as [Hinv|Hinv]; [lia|].
@@ -52,7 +52,7 @@ Qed.
 Theorem do_notes_in_bounds : forall be c,
   exists l, do_notes be c = Ok l /\ Forall (note_inside c) l.
 Proof.
-  intros be c. unfold do_notes. rewrite loopN_nat.
+  intros be c. unfold do_notes, do_notes_w. fold (notes_body be c). rewrite loopN_nat.
   destruct (notes_loop be c (N.to_nat (notes_fuel (clen c))) 0 (clen c) []) as [l [Hl Hin]].
   - unfold notes_fuel, NHDR. lia.
   - right. lia.
@@ -91,4 +91,16 @@ Proof.
   - right. lia.
   - constructor.
   - rewrite Hl. eauto.
+Qed.
+
+(** with [descoff] (and hence the bounds check) in 32 bits, a 12-byte buffer
+    holding a note header with [n_descsz = 0xfffffff4] passes the check
+    ([12 + 0xfffffff4 = 2^32 = 0 mod 2^32]) and the descriptor handed to the
+    callback lies outside the buffer *)
+Theorem do_notes_narrow_refuted :
+  exists be c, do_notes_w true be c = OOB.
+Proof.
+  exists false.
+  exists {| cfile := fun p => nth (N.to_nat p) [0;0;0;0; 244;255;255;255; 0;0;0;0] 0; cpos := 0; clen := 12 |}.
+  vm_compute. reflexivity.
 Qed.
